@@ -50,6 +50,47 @@ HIST.update({
  "C20-2":"caught on the first run (patch re-written against the tree after the C20 fixes)",
  "C03-2":"missed at first -> deferred-plain-nomination lemmas + verifC03DeferredPlain; applies to /repo 9897c5d only (see meta.json)",
 })
+HIST.update({
+ "C01-5":"missed by C01 at first (C06's supersession lemma caught it) -> the lemma is part of C01 as step lemma (R)",
+ "C01-6":"missed by C01 at first (C04's verifC04DeadlineRearm caught it) -> part of C01 as step lemma (S)",
+ "C04-5":"missed at first (thresholds were set on the agent directly) -> verifC04ConfigTimeouts through initWithDefaults",
+ "C04-6":"missed at first (nothing said what ends the silence) -> every delivered datagram refreshes LastReceived (verifC07Inbound, also run by C04)",
+ "C08-5":"caught on the first run",
+ "C08-6":"missed at first (a cancelled cycle always finished before Close) -> gated socket opening + verifC08CloseAfterRestart",
+ "C12-5":"missed at first (no harness for the universal mux's wrapper) -> verifC12Universal",
+ "C12-6":"missed by C12 at first (C13's refcount harness caught it) -> verifC12ClosedHandle",
+ "C02-5":"missed at first (messages entered at handleInbound, behind the socket-level cache) -> verifC07InboundSTUN at handleInboundPacket with a cached source, run by C02 too",
+ "C02-6":"caught on the first run",
+ "C03-5":"missed at first (candidate priorities 1..256 in C03) -> pair-priority lemmas (P) for all 32-bit priorities are part of C03",
+ "C03-6":"missed by C03 at first (C06 caught it) -> lemma (A): signalling selects nothing",
+ "C05-5":"missed at first (no error responses with ERROR-CODE) -> verifC05Late487",
+ "C05-6":"caught on the first run",
+ "C06-5":"missed at first -> mDNS candidate resolved in plain/IPv4-mapped form x source in either form",
+ "C06-6":"missed at first (no continual-gathering harness; tickers not modelled) -> time.NewTicker model + verifC06ContinualGathering",
+ "C07-5":"caught on the first run",
+ "C07-6":"missed at first (the loop always ran the validation task) -> loop closed / candidate being torn down",
+ "C09-5":"missed at first (no UDP-mux host gatherer harness) -> verifC09HostUDPMux",
+ "C09-6":"missed by C09 at first (C08 caught it) -> verifC09CloseVsGather",
+ "C10-5":"missed at first (the Agent-level half of C10 was not claimed) -> verifC10InboundNeedsLoop",
+ "C10-6":"missed at first (same) -> verifC10RestartIsOneTask",
+ "C13-5":"missed at first (the fake socket let ordinary writes through an armed deadline, and the sibling's result was not looked at) -> fake corrected, verifC13AbortInterleavedAP; the first version of the assertion demanded more than the property (a sibling write already in flight may time out) and was corrected",
+ "C13-6":"missed at first (one pending read at a time) -> verifC13TwoPendingReads",
+ "C15-5":"caught on the first run","C15-6":"caught on the first run",
+ "C11-5":"missed at first -> events that occurred before Restart are still delivered (verifC11RestartDuringCycleWithCandidate)",
+ "C11-6":"missed at first (no slow gatherer, no timers) -> verifC11NilIsLast (gated gatherer, timer ticks)",
+ "C14-5":"caught on the first run",
+ "C14-6":"NOT caught: activeTCPConn's reader/writer goroutines sit behind net.Dialer.DialContext, which the engine does not model (stated under 'outside', §7)",
+ "C16-5":"caught on the first run",
+ "C16-6":"missed at first (decoders always got fresh receivers) -> used receivers",
+ "C17-5":"caught on the first run",
+ "C17-6":"missed at first (priority never read across a role switch; equal candidate priorities) -> verifC05RoleConflict with symbolic priorities, run by C17 too",
+ "C18-5":"missed at first -> verifC06ContinualGathering is part of C18",
+ "C18-6":"missed at first (ports never ran out on one address only) -> busy-address fault in verifC18GatherHost",
+ "C19-5":"caught on the first run",
+ "C19-6":"missed at first (no CIDR x Networks combination) -> verifC19CIDRNetworks",
+ "C20-5":"missed by C20 at first (C06 caught it) -> verifC06AddRemote is part of C20",
+ "C20-6":"caught on the first run",
+})
 rows=[]
 for d in sorted(glob.glob('/verif/seeded/*/meta.json')):
     name=os.path.basename(os.path.dirname(d))
